@@ -10,6 +10,7 @@ import (
 	"net/http"
 
 	"github.com/janelia-flyem/dvid/dvid"
+	"github.com/janelia-flyem/dvid/server"
 	lz4 "github.com/janelia-flyem/go/golz4-updated"
 )
 
@@ -34,6 +35,11 @@ func uncompressReaderData(compression string, in io.ReadCloser, estsize int64) (
 		tlog.Debugf("read 3d lz4 POST: %d bytes", len(data))
 		if len(data) == 0 {
 			return nil, fmt.Errorf("received 0 LZ4 compressed bytes")
+		}
+		// estsize comes from the size in the URL, not from the data received
+		if estsize <= 0 || estsize > server.MaxDataRequest {
+			return nil, fmt.Errorf("expected size of uncompressed data (%d bytes) must be positive and within this DVID server's set limit (%d)",
+				estsize, server.MaxDataRequest)
 		}
 		tlog = dvid.NewTimeLog()
 		uncompressed := make([]byte, estsize)
